@@ -532,8 +532,10 @@ class Macro(Element):
 
         """
         # If there was a '*', unset the counter for this instance
+        # (an object that has no counter at all stays that way, so that
+        # \vspace* or \\* do not become the current label)
         if arg.index == 0 and arg.name == '*modifier*':
-            if value:
+            if value and self.counter is not None:
                 self.counter = ''
             self.refstepcounter(tex)
 
